@@ -352,6 +352,19 @@ func Run(c *hx.Ctx) {
 		h2Emit(c, "C09", uint32(mr), ops, obs, w)
 		return
 	}
+	if len(c.Args) == 4 && c.Args[0] == "mxw" {
+		mc, _ := strconv.Atoi(c.Args[1])
+		mr, _ := strconv.Atoi(c.Args[2])
+		ops, obs, w := mxwRunOps(c, false, uint32(mc), uint32(mr), scripted(strings.Split(c.Args[3], ",")))
+		mxwEmit(c, "C09", false, uint32(mc), uint32(mr), ops, obs, w)
+		return
+	}
+	if len(c.Args) == 3 && c.Args[0] == "h2w" {
+		mr, _ := strconv.Atoi(c.Args[1])
+		ops, obs, w := mxwRunOps(c, true, 0, uint32(mr), scripted(strings.Split(c.Args[2], ",")))
+		mxwEmit(c, "C09", true, 0, uint32(mr), ops, obs, w)
+		return
+	}
 	if len(c.Args) == 5 && c.Args[0] == "win" {
 		mc, _ := strconv.Atoi(c.Args[2])
 		mr, _ := strconv.Atoi(c.Args[3])
@@ -424,6 +437,8 @@ func Run(c *hx.Ctx) {
 	runMux(c)
 	// the HTTP/2 pool against the scripted HTTP/2 upstream (h2p.go)
 	RunH2(c, "C09", c.N(220, 2500))
+	// the multiplex and HTTP/2 pools' ledger per request end cause (mxw.go)
+	RunMxw(c, "C09", c.N(120, 1200))
 	// overlapping ResetStream / DestroyStream calls on one real BaseStream, every interleaving (once.go)
 	runOnce(c)
 	// concurrent phase (support): books equal the truth again once concurrent leases, resets and closes have settled
